@@ -84,6 +84,10 @@ CONSTANTS Node,          \* {1} | {1,2} | {1,2,3}; 1 is the bootstrapper
           MaxBatch, MaxReq, MaxCtr, MaxRestart,
           Types,         \* subset of {"create","delete","rename"}
           Chain,         \* a request may be two CreateMany calls inside one transaction
+          CtlRename,     \* rename requests may also name "ctl<n>": node n's INTERNAL control
+                         \* channel (Layer.configureControlUpdates), which RenameMany(...,
+                         \* allowInternal=false) must refuse. It lives outside `meta` (the
+                         \* harness' baseline), so the metadata update does not find it.
           InjectFail,    \* FailHere enabled (design level only)
           AnyPeerOrder,  \* peers visited in any order (Go map iteration) or ascending
           Dev_DeleteSkipsVirtual, Dev_EngineCreateNoCleanup, Dev_EngineDeletePartial,
@@ -114,6 +118,9 @@ NoKey == K(0, 0)
 BadCtr == 999                          \* local key of a channel that never exists
 TimeName(b) == b \o "_time"
 NameU == BaseName \cup ExtraName \cup {TimeName(b) : b \in BaseName}
+CtlName(n) == "ctl" \o ToString(n)
+CtlNames == {CtlName(n) : n \in Node}
+CtlKey(x) == K(CHOOSE n \in Node : CtlName(n) = x, 0)   \* local key 0 = last pre-existing key
 KeyNum(k) == (IF k.l = 0 THEN 4095 ELSE k.l) * 100000 + k.c
 KeyLT(a, b) == KeyNum(a) < KeyNum(b)
 SortKeys(S) == SetToSortSeq(S, KeyLT)
@@ -159,7 +166,7 @@ NoLast == [res |-> "none", why |-> "", ret |-> <<>>, n |-> 0, amb |-> FALSE]
 Init == /\ ctr = [l \in Lease |-> 0]
         /\ meta = EmptyF /\ engine = [n \in Node |-> EmptyF] /\ onto = {}
         /\ everUsed = {} /\ fresh = TRUE /\ gone = {}
-        /\ keyOf = [x \in NameU |-> NoKey] /\ ixn = EmptyF
+        /\ keyOf = [x \in NameU \cup CtlNames |-> IF x \in CtlNames THEN CtlKey(x) ELSE NoKey] /\ ixn = EmptyF
         /\ stim = NoStim /\ rq = Idle /\ last = NoLast /\ nreq = 0 /\ nrestart = 0
 
 --------------------------------------------------------------------------------
@@ -188,7 +195,7 @@ PickRest ==
              \E nm \in NameChoices(stim.kind), ls \in LeaseChoices(stim.kind), rf \in RefChoices(stim.kind) :
                 AddEntry([name |-> nm, kind |-> stim.kind, lease |-> ls, ref |-> rf])
        [] stim.type = "delete" -> \E nm \in NameU : NewTarget(nm) /\ AddEntry([name |-> nm])
-       [] stim.type = "rename" -> \E nm \in NameU, nw \in BaseName \cup ExtraName :
+       [] stim.type = "rename" -> \E nm \in NameU \cup (IF CtlRename THEN CtlNames ELSE {}), nw \in BaseName \cup ExtraName :
                                      NewTarget(nm) /\ AddEntry([name |-> nm, new |-> nw])
 AddAnother == /\ stim.st = "more" /\ Len(stim.ents) - stim.cut < MaxBatch
               /\ stim' = [stim EXCEPT !.st = IF stim.type = "create" THEN "kind" ELSE "rest"] /\ StimUnch
